@@ -19,6 +19,7 @@ import (
 	k8spredicate "sigs.k8s.io/controller-runtime/pkg/predicate"
 	gatewayv1 "sigs.k8s.io/gateway-api/apis/v1"
 	"sigs.k8s.io/gateway-api/apis/v1alpha2"
+	"sigs.k8s.io/gateway-api/apis/v1beta1"
 
 	"github.com/nginx/nginx-gateway-fabric/internal/framework/events"
 	"github.com/nginx/nginx-gateway-fabric/internal/framework/helpers"
@@ -172,9 +173,17 @@ func c01Histories(out *vu.Out, rng *vu.Rng, n int, focusGrants bool) {
 			c01CrossNS(vu.NewRng(seedA+1), b)
 			a = vsGen(vu.NewRng(seedA), size)
 			c01CrossNS(vu.NewRng(seedA+1), a)
+			// a grant stays, goes away, or is edited in place so that it no longer names the referrer's namespace
 			var keep []vsGrant
 			for _, g := range b.Grants {
-				if r.Chance(1, 3) {
+				switch r.Intn(3) {
+				case 0:
+					keep = append(keep, g)
+				case 1:
+					g.From = append([]vsGrantFrom(nil), g.From...)
+					for k := range g.From {
+						g.From[k].NS = "nowhere"
+					}
 					keep = append(keep, g)
 				}
 			}
@@ -264,27 +273,40 @@ func c01Histories(out *vu.Out, rng *vu.Rng, n int, focusGrants bool) {
 		type op struct {
 			del bool
 			obj client.Object
+			// touchTo > 0: no event; writes that change nothing the controller watches move the object's resourceVersion up to this number
+			touchTo int
 		}
 		var pre, ops []op
 		for _, o := range objsA {
 			if r.Chance(1, 2) {
-				pre = append(pre, op{false, o}) // exists before the controller starts
+				pre = append(pre, op{del: false, obj: o}) // exists before the controller starts
 			} else {
-				ops = append(ops, op{false, o})
+				ops = append(ops, op{del: false, obj: o})
 			}
 		}
 		var later []op
 		for k, o := range mb {
 			if old, ok := ma[k]; !ok || !reflect.DeepEqual(old, o) {
-				later = append(later, op{false, o})
+				later = append(later, op{del: false, obj: o})
 			}
 		}
 		for k, o := range ma {
 			if _, ok := mb[k]; !ok {
-				later = append(later, op{true, o})
+				later = append(later, op{del: true, obj: o})
 			}
 		}
 		sort.Slice(later, func(x, y int) bool { return c05Key(later[x].obj) < c05Key(later[y].obj) })
+		// an object edited twice in a row, its resourceVersion going from one digit to two between the edits (resourceVersions
+		// are opaque: nothing may depend on how they compare)
+		var twice []op
+		for _, o := range later {
+			if tw := c01Tweak(o.obj); tw != nil && !o.del && r.Chance(1, 3) {
+				twice = append(twice, op{touchTo: 8, obj: o.obj}, op{obj: tw}, o)
+			} else {
+				twice = append(twice, o)
+			}
+		}
+		later = twice
 		r.Shuffle(len(ops), func(x, y int) { ops[x], ops[y] = ops[y], ops[x] })
 		r.Shuffle(len(later), func(x, y int) { later[x], later[y] = later[y], later[x] })
 		ops = append(ops, later...)
@@ -293,7 +315,7 @@ func c01Histories(out *vu.Out, rng *vu.Rng, n int, focusGrants bool) {
 			o := ops[r.Intn(len(ops))]
 			if !o.del {
 				pos := r.Intn(len(ops) + 1)
-				ops = append(ops[:pos:pos], append([]op{{true, o.obj}, {false, o.obj}}, ops[pos:]...)...)
+				ops = append(ops[:pos:pos], append([]op{{del: true, obj: o.obj}, {del: false, obj: o.obj}}, ops[pos:]...)...)
 			}
 		}
 
@@ -330,7 +352,7 @@ func c01Histories(out *vu.Out, rng *vu.Rng, n int, focusGrants bool) {
 			if err := cw.k8s.Get(ctx, client.ObjectKeyFromObject(o), prev); err != nil {
 				prev = nil
 			}
-			if prev != nil && r.Chance(1, 5) {
+			if prev != nil && (r.Chance(1, 5) || (c01Kind(o) == "ReferenceGrant" && r.Bool())) {
 				// writes that change nothing the controller watches (another writer's status or annotation) move the
 				// resourceVersion on: here up to 9, so that the update that follows takes it from one digit to two
 				for k := 0; k < 10; k++ {
@@ -434,6 +456,21 @@ func c01Histories(out *vu.Out, rng *vu.Rng, n int, focusGrants bool) {
 		for _, o := range ops {
 			kind := c01Kind(o.obj)
 			f := c01Filter(kind)
+			if o.touchTo > 0 {
+				for k := 0; k < 12; k++ {
+					cur := o.obj.DeepCopyObject().(client.Object)
+					if err := cw.k8s.Get(ctx, client.ObjectKeyFromObject(o.obj), cur); err != nil {
+						break
+					}
+					if n, err := strconv.Atoi(cur.GetResourceVersion()); err != nil || n >= o.touchTo {
+						break
+					}
+					if err := cw.k8s.Update(ctx, cur); err != nil {
+						break
+					}
+				}
+				continue
+			}
 			if o.del {
 				cur := o.obj.DeepCopyObject().(client.Object)
 				if err := cw.k8s.Get(ctx, client.ObjectKeyFromObject(o.obj), cur); err != nil {
@@ -731,4 +768,19 @@ func c01MixedPaths(k8s client.Client) bool {
 		}
 	}
 	return false
+}
+
+// c01Tweak returns a variant of the object whose spec differs harmlessly (an intermediate edit), or nil for kinds it does not handle.
+func c01Tweak(o client.Object) client.Object {
+	switch x := o.(type) {
+	case *v1beta1.ReferenceGrant:
+		c := x.DeepCopy()
+		c.Spec.To = append(c.Spec.To, v1beta1.ReferenceGrantTo{Group: "", Kind: "Secret", Name: helpers.GetPointer(gatewayv1.ObjectName("c01-tweak"))})
+		return c
+	case *gatewayv1.HTTPRoute:
+		c := x.DeepCopy()
+		c.Spec.Hostnames = append(c.Spec.Hostnames, "tweak.example.com")
+		return c
+	}
+	return nil
 }
